@@ -78,8 +78,14 @@ var seedSchema = `{"type":"object","properties":{"a":{"type":"integer"}}}`
 var seedTemplate = "kind: ConfigMap\nmetadata:\n  name: {{ .Release.Name }}\n  annotations:\n    helm.sh/hook: pre-install\ndata:\n  a: {{ .Values.a | quote }}\n{{- range $k, $v := .Values.sub }}\n  {{ $k }}: {{ $v | quote }}\n{{- end }}\n---\n{{ include \"x\" . }}\n"
 var seedHelpers = "{{- define \"x\" -}}kind: Secret{{- end -}}"
 
+// file names a chart may come with that the loader has to classify: loose files directly under charts/ (where
+// sub-chart directories and archives are expected), at deeper levels, hidden and underscore names, archives and
+// provenance files that are not what their name says, empty path components
+var oddChartFiles = []string{"charts/README.md", "charts/notes.txt", "charts/sub/charts/x.txt", "charts/.hidden", "charts/_ignored", "charts/a.tgz", "charts/sub-0.1.0.tgz",
+	"charts/sub.prov", "charts/x/y", "charts/sub/charts/deep/Chart.yaml", "crds/x.yaml", "charts/sub/README", "charts/s", "charts/LICENSE", "templates/NOTES.txt", "templates/sub/deep/t.yaml", "files/a.bin", "README.md", ".helmignore", "requirements.lock", "requirements.yaml", "Chart.lock"}
+
 func corrCrash(seed uint64, n int, tier string, out string, replay string) {
-	rep := NewReport("C20", "crash", seed, "case = one external input mutated at byte/token level (or replaced by raw bytes): chart files (Chart.yaml incl. dependencies / import-values, values.yaml, values.schema.json, templates) loaded from buffers, archives and directories and then driven through dependency processing, value computation, rendering, manifest sorting and lint; values-file reading; strvals expressions; repository index followed by queries; provenance files; .helmignore; plugin.yaml; each call under recover and a 20 s watchdog; non-trivial = every case (all are mutants); distinct = hash of the mutated input")
+	rep := NewReport("C20", "crash", seed, "case = one external input mutated at byte/token level (or replaced by raw bytes), in 30% of the cases together with 1-3 extra files under odd names (loose files directly under charts/, fake archives and provenance files, Helm 2 requirement files): chart files (Chart.yaml incl. dependencies / import-values, values.yaml, values.schema.json, templates) loaded from buffers, archives and directories and then driven through dependency processing, value computation, rendering, manifest sorting and lint; values-file reading; strvals expressions; repository index followed by queries; provenance files; .helmignore; plugin.yaml; each call under recover and a 20 s watchdog; non-trivial = every case (all are mutants); distinct = hash of the mutated input")
 	tmp, _ := os.MkdirTemp("", "corr-crash")
 	defer os.RemoveAll(tmp)
 	report := func(entry, res string, input any, known string, idx int) {
@@ -105,11 +111,20 @@ func corrCrash(seed uint64, n int, tier string, out string, replay string) {
 			}
 			files[target] = raw
 		}
+		// the layout as well: files where the loader expects charts, odd names
+		var extra []string
+		if r.Chance(30) {
+			for k := 1 + r.Intn(3); k > 0; k-- {
+				name := Pick(r, oddChartFiles)
+				files[name] = []byte(Pick(r, []string{"x", "", "apiVersion: v2\nname: z\nversion: 0.1.0\n", "\x1f\x8b\x08garbage"}))
+				extra = append(extra, name)
+			}
+		}
 		rep.Count(map[string]any{"t": target, "d": string(files[target])}, true)
 		if i < 2 {
 			rep.Sample(map[string]any{"target": target, "content": string(files[target])})
 		}
-		input := map[string]any{"target": target, "content": string(files[target])}
+		input := map[string]any{"target": target, "content": string(files[target]), "extraFiles": extra}
 		known := ""
 		if target == "Chart.yaml" && strings.Contains(string(files[target]), "import-values") {
 			known = "?import"
